@@ -226,6 +226,30 @@ inline CellResult check_cell(const std::vector<Trial>& tr, uint64_t n, double rs
   return R;
 }
 
+// High-resolution one-sided coverage (cells with thousands of cheap trials): the true count may lie above ub(kappa) /
+// below lb(kappa) no more often than the nominal one-sided miss rate 1 - Phi(kappa) plus ONE_SIDED_TOL[kappa] plus
+// 4 binomial standard errors (at the allowed rate).  Half of the two-sided 5pp would hide a 3-sigma bound that is
+// missed 20 times too often, so the tolerance shrinks with kappa: 2.5pp / 1pp / 0.5pp.
+static const double ONE_SIDED_MISS[4] = {0, 0.158655253931457, 0.022750131948179, 0.001349898031630};
+static const double ONE_SIDED_TOL[4] = {0, 0.025, 0.010, 0.005};
+inline void check_one_sided(const std::vector<Trial>& tr, uint64_t n, const std::string& fam, const std::string& ctx) {
+  const double T = static_cast<double>(tr.size()), dn = static_cast<double>(n);
+  std::string rec = "CELL1S " + ctx + " T=" + std::to_string(tr.size());
+  for (int sd = 1; sd <= 3; ++sd) {
+    uint64_t above = 0, below = 0;
+    for (auto& t : tr) { if (dn > t.c.ub[sd]) ++above; if (dn < t.c.lb[sd]) ++below; }
+    const double allowed0 = ONE_SIDED_MISS[sd] + ONE_SIDED_TOL[sd];
+    const double allowed = allowed0 + 4.0 * std::sqrt(allowed0 * (1.0 - allowed0) / T);
+    const double ra = static_cast<double>(above) / T, rb = static_cast<double>(below) / T;
+    const std::string d = ctx + " T=" + std::to_string(tr.size()) + " std_devs=" + std::to_string(sd) + " truth-above-ub rate=" + str(ra) + " truth-below-lb rate=" + str(rb) +
+      " nominal=" + str(ONE_SIDED_MISS[sd]) + " allowed=" + str(allowed);
+    VF_CHECK(ra <= allowed, fam + "|mc|upper-bound-below-truth-too-often-" + std::to_string(sd) + "sd", d);
+    VF_CHECK(rb <= allowed, fam + "|mc|lower-bound-above-truth-too-often-" + std::to_string(sd) + "sd", d);
+    rec += " sd" + std::to_string(sd) + ": above=" + str(ra) + " below=" + str(rb) + " allowed=" + str(allowed);
+  }
+  emit(std::string("{\"t\":\"cell\",\"d\":") + jstr(rec) + "}");
+}
+
 // cardinalities of the Monte-Carlo cells as multiples of k (num/den)
 struct Mult { uint32_t num, den; };
 static const Mult MULTS[] = {{1,32},{1,8},{1,2},{1,1},{2,1},{3,1},{5,1},{8,1},{16,1},{32,1},{64,1}};
